@@ -70,6 +70,22 @@ PINS = [("autode/calculations/executors.py", q) for q in (
     ("autode/utils.py", "requires_output_to_exist"),
     ("autode/constraints.py", "Constraints.distance"),
     ("autode/opt/optimisers/base.py", "NDOptimiser.print_geometries"), ("autode/opt/optimisers/base.py", "print_geometries_from"),
+    # transitive dependencies of the identity string (dunder methods the f-strings call)
+] + [("autode/wrappers/keywords/keywords.py", q) for q in (
+    "Keywords.__str__", "OptKeywords.__repr__", "HessianKeywords.__repr__", "GradientKeywords.__repr__",
+    "SinglePointKeywords.__repr__", "Keyword.__str__", "BasisSet.__repr__", "DispersionCorrection.__repr__",
+    "Functional.__repr__", "ImplicitSolventType.__repr__", "RI.__repr__", "WFMethod.__repr__", "ECP.__repr__",
+    "MaxOptCycles.__repr__")] + [
+    ("autode/calculations/executors.py", "_point_charges_str"),
+    ("autode/values.py", "Distance.__repr__"), ("autode/constraints.py", "DistanceConstraints"),
+    ("autode/point_charges.py", "PointCharge.__init__"), ("autode/atoms.py", "Atom.label"),
+    # the execution path of the wrappers that the real-wrapper stream drives
+    ("autode/utils.py", "work_in_tmp_dir"), ("autode/utils.py", "run_external"),
+    ("autode/wrappers/XTB.py", "XTB.execute"), ("autode/wrappers/ORCA.py", "ORCA.execute"),
+    # executors / entry points that are neither modelled nor run (a cache or a registry use added there is not seen)
+    ("autode/calculations/executors.py", "CalculationExecutorG"), ("autode/calculations/executors.py", "CalculationExecutorH"),
+    ("autode/calculations/executors.py", "CalculationExecutorO._run_single_energy_evaluation"),
+    ("autode/calculations/calculation.py", "Calculation.set_output_filename"),
 ]
 
 SLICE = ["C15/Base.v", "C15/Model.v", "C15/Lemmas.v", "C15/Props.v", "C15/Corr.v", "gen/C15_Gen.v"]
@@ -94,6 +110,7 @@ SPECIES = {
     "d15": dict(sname="m", charge=0, mult=1, atoms=("O", "H", "H"), solvent=None, cart=(), dist=(((0, 1), 1.5),), pcs=None),
     "d1504": dict(sname="m", charge=0, mult=1, atoms=("O", "H", "H"), solvent=None, cart=(), dist=(((0, 1), 1.504),), pcs=None),
     "pcs": dict(sname="m", charge=0, mult=1, atoms=("O", "H", "H"), solvent=None, cart=(), dist=(), pcs=((1.0, 0.0, 0.0, 3.0),)),
+    "pcs2": dict(sname="m", charge=0, mult=1, atoms=("O", "H", "H"), solvent=None, cart=(), dist=(), pcs=((1.0, 0.0, 0.0, 4.0),)),
     "sname": dict(sname="m2", charge=0, mult=1, atoms=("O", "H", "H"), solvent=None, cart=(), dist=(), pcs=None),
     "comp": dict(sname="m", charge=0, mult=1, atoms=("S", "H", "H"), solvent=None, cart=(), dist=(), pcs=None),
 }
@@ -110,7 +127,12 @@ OSPECIES = {
 }
 SPECIES.update(OSPECIES)
 HE3_XYZ = ((0.0, 0.0, 0.0), (1.1, 0.0, 0.0), (0.3, 1.0, 0.1))
-KWS = {"k1": ("k1",), "k2": ("k1", "k2"), "o1": (), "o2": ("maxopt40",)}
+_LONG = "%scf maxiter 250 convergence tight directresetfreq 15 soscfstart 0.00033 end "   # > 60 characters
+KWS = {"k1": ("k1",), "k2": ("k1", "k2"), "o1": (), "o2": ("maxopt40",),
+       # keywords that differ only far inside one long (block-type) keyword
+       "kl1": ("k1", _LONG + "%geom maxiter 100 end"), "kl2": ("k1", _LONG + "%geom maxiter 200 end"),
+       # Keyword OBJECTS with the same name and a different string for the method ("F:<name>:<orca string>")
+       "kf1": ("F:pbe:PBE",), "kf2": ("F:pbe:BLYP",)}
 
 
 def spec(name, meth, kw, sp):
@@ -126,13 +148,14 @@ def universe(full):
         for m in ("xtb", "orca", "orca_smd"):
             for k in ("k1", "k2"):
                 for s in SPECIES:
-                    if s in OSPECIES:
+                    if s in OSPECIES or (s == "pcs2" and (n != "a" or k != "k1")):
                         continue
                     if m == "orca_smd" and s not in ("base", "solvent"):
                         continue
                     if n in ("a b", " a") and s not in ("base", "charge", "pcs"):
                         continue
                     U.append(spec(n, m, k, s))
+    U += [spec("a", "orca", k, "base") for k in ("kl1", "kl2", "kf1", "kf2")] + [spec("a", "xtb", k, "base") for k in ("kl1", "kl2")]
     # a name that CONTAINS another calculation's full name away from its start
     U += [spec("xa", m, k, "base") for m in ("xtb", "orca") for k in ("k1", "k2")]
     # optimisations through CalculationExecutorO (trajectory <name>_opt_trj.zip)
@@ -156,7 +179,8 @@ def prop_fields(sp):
         "species_name": sp["sname"], "composition": tuple(sp["atoms"]), "charge": sp["charge"],
         "multiplicity": sp["mult"], "solvent": sp["solvent"],
         "solvation_model": {"xtb": "gbsa", "orca": "cpcm", "orca_smd": "smd", "surf": None}[sp["meth"]],
-        "cartesian_constraints": frozenset(sp["cart"]), "distance_constraints": tuple(sp["dist"]),
+        "cartesian_constraints": frozenset(sp["cart"]),
+        "distance_constraints": tuple(sorted((tuple(sorted(k)), v) for k, v in sp["dist"])),
         "point_charges": sp["pcs"],
     }
 
@@ -173,6 +197,10 @@ def classify(a, b):
         return "whitespace-in-name"
     if diff == ["point_charges"]:
         return "differs-only-in:point_charges"
+    if diff == ["keywords"] and len(a["kw"]) == len(b["kw"]) and all(
+            x == y or (x.startswith("F:") and y.startswith("F:") and x.split(":")[1] == y.split(":")[1])
+            for x, y in zip(a["kw"], b["kw"])):
+        return "differs-only-in:keyword-method-string"
     if diff == ["distance_constraints"]:
         da, db = dict(a["dist"]), dict(b["dist"])
         if set(da) == set(db) and all(round(da[k], 3) == round(db[k], 3) for k in da):
@@ -204,7 +232,8 @@ def impl_setup():
     from autode.wrappers.keywords import SinglePointKeywords
     from autode.wrappers.keywords.implicit_solvent_types import smd
     ade.Config.n_cores = 1
-    cur = {"outcome": "ONormal", "j": 0, "invoked": []}
+    cur = {"outcome": "ONormal", "j": 0, "k": 0, "invoked": []}
+    from autode.wrappers.keywords import Functional
 
     def fake_execute(self, calc):
         """The scripted external program: writes <name>.out tagged with the index of the request
@@ -213,24 +242,13 @@ def impl_setup():
         oc, j = cur["outcome"], cur["j"]
         if oc == "ONoOutput":
             return
-        normal = oc == "ONormal"
-        e = -(j + 1.0)
         with open(calc.output.filename, "w") as f:
-            print(f"C15TAG {j} {'normal' if normal else 'abnormal'}", file=f)
-            if self.name == "xtb":
-                print("\n".join(["  xtb filler line"] * 24), file=f)
-                print(f"          | TOTAL ENERGY  {e:.6f} Eh   |", file=f)
-                print("\n".join(["  xtb filler line"] * 24), file=f)
-                if not normal:
-                    print("#ERROR! abnormal termination of xtb", file=f)
-            else:
-                print(f"FINAL SINGLE POINT ENERGY     {e:.6f}", file=f)
-                print("\n".join(["  orca filler line"] * 40), file=f)
-                if normal:
-                    print("                             ****ORCA TERMINATED NORMALLY****", file=f)
+            f.write(output_text(self.name, j, oc == "ONormal", cur["k"]))
         with open(f"{calc.name}_side.tmp", "w") as f:
             print("scratch", file=f)
 
+    _IMPL.update(real_execute={"xtb": XTB.execute, "orca": ORCA.execute}, fake_execute=fake_execute, XTBc=XTB, ORCAc=ORCA,
+                 Functional=Functional)
     XTB.execute = fake_execute
     ORCA.execute = fake_execute
 
@@ -301,6 +319,32 @@ def impl_setup():
     return _IMPL
 
 
+def output_text(prog, j, normal, k):
+    """What the scripted program prints for request j in the k-th operation of a history."""
+    e = -(j + 1.0)
+    lines = [f"C15TAG {j} {'normal' if normal else 'abnormal'} {k}"]
+    if prog == "xtb":
+        lines += ["  xtb filler line"] * 24 + [f"          | TOTAL ENERGY  {e:.6f} Eh   |"] + ["  xtb filler line"] * 24
+        if not normal:
+            lines.append("#ERROR! abnormal termination of xtb")
+    else:
+        lines += [f"FINAL SINGLE POINT ENERGY     {e:.6f}"] + ["  orca filler line"] * 40
+        if normal:
+            lines.append("                             ****ORCA TERMINATED NORMALLY****")
+    return "\n".join(lines) + "\n"
+
+
+def make_keywords(I, kw):
+    out = []
+    for k in kw:
+        if k.startswith("F:"):
+            _, name, orca = k.split(":")
+            out.append(I["Functional"](name, orca=orca))
+        else:
+            out.append(k)
+    return I["SPK"](out)
+
+
 def build(sp):
     """-> (Calculation, molecule) for a request spec: fresh objects every time."""
     I = impl_setup()
@@ -327,9 +371,8 @@ def build(sp):
         mol.constraints.cartesian = list(sp["cart"])
     if sp["dist"]:
         mol.constraints.distance = {tuple(k): v for k, v in sp["dist"]}
-    kws = list(sp["kw"])
     pcs = None if sp["pcs"] is None else [I["PointCharge"](q, x, y, z) for q, x, y, z in sp["pcs"]]
-    calc = I["Calculation"](name=sp["name"], molecule=mol, method=meth, keywords=I["SPK"](kws), point_charges=pcs)
+    calc = I["Calculation"](name=sp["name"], molecule=mol, method=meth, keywords=make_keywords(I, sp["kw"]), point_charges=pcs)
     return calc, mol
 
 
@@ -352,8 +395,9 @@ def mutate(calc, sp):
     its keywords / molecule / constraints in place, as user code does.  Name and method stay."""
     I = impl_setup()
     _, mol = build(dict(sp, pcs=None))
-    calc.input.keywords = I["SPK"](list(sp["kw"]))
+    calc.input.keywords = make_keywords(I, sp["kw"])
     calc.molecule = mol
+    calc.input.point_charges = None if sp["pcs"] is None else [I["PointCharge"](q, x, y, z) for q, x, y, z in sp["pcs"]]
     return mol
 
 
@@ -389,7 +433,7 @@ def read_dir():
     for f in files:
         if f.endswith(".out") or f.endswith(".log"):
             first = open(f).readline().split()
-            if len(first) == 3 and first[0] == "C15TAG":
+            if len(first) >= 3 and first[0] == "C15TAG":
                 outs.append([f, first[2] == "normal", int(first[1])])
             else:
                 outs.append([f, False, -1])
@@ -406,8 +450,15 @@ def read_dir():
     return files, outs, reg
 
 
-def run_ops_impl(U, ops, workdir, start_fresh=True):
-    """Execute ops = [(j, outcome, cmode)] in workdir.  -> dict(obs, aux, files, outs, reg)"""
+REAL_SCRIPT = "#!/bin/sh\necho x >> \"$C15_COUNTER\"\ncat \"$C15_NEXT_OUTPUT\"\n"
+
+
+def run_ops_impl(U, ops, workdir, start_fresh=True, real=False):
+    """Execute ops = [(j, outcome, cmode[@reuse|@late<j0>])] in workdir.
+    real=True: the wrappers' own execute() (work_in_tmp_dir + run_external) runs a scripted
+    executable instead of the in-process stand-in.
+    -> dict(obs, aux, stale, starts, files, outs, reg, snaps)"""
+    import tempfile
     I = impl_setup()
     cur, Config, aex = I["cur"], I["ade"].Config, I["aex"]
     if start_fresh:
@@ -415,27 +466,51 @@ def run_ops_impl(U, ops, workdir, start_fresh=True):
         os.makedirs(workdir)
     cwd = os.getcwd()
     os.chdir(workdir)
-    obs, auxs, snaps, starts = [], [], [], []
-    objs = {}      # (requested name, method) -> most recent Calculation object that never had point charges
+    obs, auxs, stales, snaps, starts = [], [], [], [], []
+    objs = {}      # (requested name, method) -> most recent external Calculation object
+    old_tmp = tempfile.tempdir
+    if real:
+        aside = workdir.rstrip("/") + "_prog"
+        shutil.rmtree(aside, ignore_errors=True)
+        os.makedirs(os.path.join(aside, "tmp"))
+        script = os.path.join(aside, "prog.sh")
+        with open(script, "w") as f:
+            f.write(REAL_SCRIPT)
+        os.chmod(script, 0o755)
+        os.environ["C15_NEXT_OUTPUT"] = os.path.join(aside, "next_output")
+        os.environ["C15_COUNTER"] = os.path.join(aside, "counter")
+        tempfile.tempdir = os.path.join(aside, "tmp")
+        Config.ll_tmp_dir = os.path.join(aside, "tmp")
+        I["XTBc"].execute, I["ORCAc"].execute = I["real_execute"]["xtb"], I["real_execute"]["orca"]
     try:
-        for j, oc, cmr in ops:
+        for k, (j, oc, cmr) in enumerate(ops):
             cm, _, mark = cmr.partition("@")
             key = (U[j]["name"], U[j]["meth"])
-            plain = U[j]["pcs"] is None and U[j]["meth"] != "surf"
-            if mark == "reuse" and plain and key in objs:
+            ext = U[j]["meth"] != "surf"
+            if mark == "reuse" and ext and key in objs:
                 # an existing object (a copy of it every other time) is changed into this request
                 calc = objs[key].copy() if len(obs) % 2 == 0 else objs[key]
                 starts.append(calc._executor.name)
                 mol = mutate(calc, U[j])
+            elif mark.startswith("late") and not ext:
+                # an optimisation object is BUILT as request j0 and changed to request j before run()
+                calc, mol = build(U[int(mark[4:])])
+                mol.constraints.distance = {tuple(kk): v for kk, v in U[j]["dist"]} if U[j]["dist"] else None
+                starts.append(None)
             else:
                 calc, mol = build(U[j])
                 starts.append(None)
-            if plain:
+            if ext:
                 objs[key] = calc
-            else:
-                objs.pop(key, None)
-            cur.update(outcome=oc, j=j, invoked=[])
+            if real:
+                calc.method.path = script
+                with open(os.environ["C15_NEXT_OUTPUT"], "w") as f:
+                    f.write(output_text(calc.method.name, j, oc == "ONormal", k))
+                n0 = len(open(os.environ["C15_COUNTER"]).read()) if os.path.exists(os.environ["C15_COUNTER"]) else 0
+            cur.update(outcome=oc, j=j, k=k, invoked=[])
             before = set(os.listdir())
+            for f in before:                      # so that every file written by this operation is recognisable
+                os.utime(f, ns=(0, 0))
             Config.keep_input_files = cm != "CAuto"
             raised = False
             try:
@@ -445,21 +520,39 @@ def run_ops_impl(U, ops, workdir, start_fresh=True):
             finally:
                 Config.keep_input_files = True
             listing_after_run = set(os.listdir())
-            aux = list(calc.input.additional_filenames)
+            written = {f for f in listing_after_run if f not in before or os.stat(f).st_mtime_ns != 0}
+            declared = list(dict.fromkeys(calc.input.additional_filenames))
+            aux = [f for f in declared if f in written]
+            stale = [f for f in declared if f not in written]
+            is_opt = not ext
+            outf = f"{calc._executor.name}_opt_trj.zip" if is_opt else calc.output.filename
+            out_tag = None
+            if not is_opt and outf is not None and os.path.exists(outf):
+                out_tag = open(outf).readline().split()
             if cm in ("CForce", "CEverything"):
                 calc.clean_up(force=True, everything=(cm == "CEverything"))
             e = mol.energy
             en = None if e is None else int(round(-float(e))) - 1
-            obs.append([calc._executor.name, bool(cur["invoked"]), en, raised])
+            if real:
+                n1 = len(open(os.environ["C15_COUNTER"]).read()) if os.path.exists(os.environ["C15_COUNTER"]) else 0
+                invoked = n1 > n0
+            else:
+                invoked = bool(cur["invoked"])
+            obs.append([calc._executor.name, invoked, en, raised])
             auxs.append(aux)
-            is_opt = U[j]["meth"] == "surf"
+            stales.append(stale)
             snaps.append(dict(before=sorted(before), after_run=sorted(listing_after_run), after=sorted(os.listdir()),
-                              out=(f"{calc._executor.name}_opt_trj.zip" if is_opt else calc.output.filename),
-                              inputs=([] if is_opt else list(calc.input.filenames))))
+                              out=outf, inputs=([] if is_opt else list(calc.input.filenames)), written=sorted(written),
+                              out_tag=out_tag, stale=stale))
         files, outs, reg = read_dir()
     finally:
         os.chdir(cwd)
-    return dict(obs=obs, aux=auxs, files=files, outs=outs, reg=reg, snaps=snaps, starts=starts)
+        if real:
+            tempfile.tempdir = old_tmp
+            Config.ll_tmp_dir = None
+            I["XTBc"].execute = I["ORCAc"].execute = I["fake_execute"]
+            shutil.rmtree(aside, ignore_errors=True)
+    return dict(obs=obs, aux=auxs, stale=stales, files=files, outs=outs, reg=reg, snaps=snaps, starts=starts)
 
 
 # ------------------------------------------------------------------------------------------------
@@ -473,25 +566,31 @@ def oracle_sequence(U, ops, res):
     produced = {}        # output file -> (normal, j) as written by the scripted program
     creator = {}         # file name -> calculation name that (re)wrote it last
     first_name = {}      # request index -> the name it got when first issued
-    first_start = {}     # request index -> name carried by the re-used object it was first issued through (None: new object)
+    first_j = {}
+    first_start = {}     # request -> name carried by the re-used object it was first issued through (None: new object)
     ws_seen = False
     for k, ((j, oc, cm), ob, sn) in enumerate(zip(ops, res["obs"], res["snaps"])):
         name, invoked, en, raised = ob
-        cm = cm.partition("@")[0]
+        cm, _, mark = cm.partition("@")
+        late = mark.startswith("late")
         sp = U[j]
+        rk = tuple(sorted((a, repr(b)) for a, b in prop_fields(sp).items()))     # the request, by the property's fields
         ws = any(c.isspace() for c in sp["name"])
         ws_seen = ws_seen or ws
         st_k = res["starts"][k] if "starts" in res else None
-        first_start.setdefault(j, st_k)
-        if first_name.setdefault(j, name) != name:
-            via_obj = st_k is not None or first_start[j] is not None
+        first_start.setdefault(rk, st_k)
+        first_j.setdefault(rk, j)
+        if not late and first_name.setdefault(rk, name) != name:
+            via_obj = st_k is not None or first_start[rk] is not None
             key = "same-request|different-name" + ("|whitespace-in-history" if ws_seen else
-                                                   "|through-reused-object" if via_obj else "")
-            bad.append((key, f"op {k}: request {sp['tag']} was named {first_name[j]!r} before and is named {name!r} now"))
+                                                   "|through-reused-object" if via_obj else
+                                                   "|constraint-insertion-order" if first_j[rk] != j else "")
+            bad.append((key, f"op {k}: request {sp['tag']} was named {first_name[rk]!r} before "
+                             f"(as {U[first_j[rk]]['tag']}) and is named {name!r} now"))
         if name in owner and owner[name] != j:
             diff = differing_fields(U[owner[name]], sp)
             if diff:
-                bad.append(("shared-name|" + classify(U[owner[name]], sp),
+                bad.append(("shared-name|" + ("optimisation-changed-after-construction" if late else classify(U[owner[name]], sp)),
                             f"op {k}: request {sp['tag']} got calculation name {name!r}, already owned by "
                             f"{U[owner[name]]['tag']} (they differ in {diff})"))
         owner.setdefault(name, j)
@@ -508,6 +607,11 @@ def oracle_sequence(U, ops, res):
             oc = "ONormal"               # the optimiser always saves its trajectory
         if invoked and oc != "ONoOutput":
             produced[outf] = (oc == "ONormal", j)
+            want = ["C15TAG", str(j), "normal" if oc == "ONormal" else "abnormal", str(k)]
+            if sp["meth"] != "surf" and sn.get("out_tag") != want:
+                bad.append(("regenerated-output|not-the-file-just-written",
+                            f"op {k}: {sp['tag']}: the program was run and wrote {' '.join(want)!r} but {outf} holds "
+                            f"{' '.join(sn.get('out_tag') or ['nothing'])!r}"))
         if en is not None:
             src = produced.get(outf)
             if src is None or src[1] != en:
@@ -515,18 +619,17 @@ def oracle_sequence(U, ops, res):
             else:
                 diff = differing_fields(U[en], sp)
                 if diff:
-                    bad.append(("reused-result|" + classify(U[en], sp),
+                    bad.append(("reused-result|" + ("optimisation-changed-after-construction" if late else classify(U[en], sp)),
                                 f"op {k}: {sp['tag']} took its energy from the output of {U[en]['tag']} (they differ in {diff})"))
-        # files this calculation (re)wrote: its declared inputs; when the program ran, output + scratch
-        mine = set(sn["inputs"]) | {f for f in sn["after_run"] if f not in sn["before"]}
-        if invoked and oc != "ONoOutput":
-            mine |= {outf, f"{name}_side.tmp", f"{name}_opt_trj.xyz"}
+        # files this calculation really (re)wrote in this operation (by modification time)
+        mine = set(sn["written"])
         for f in mine:
             if f is not None and f != REGISTER:
                 creator[f] = name
         for f in set(sn["before"]) | set(sn["after_run"]):
             if f not in sn["after"] and f != REGISTER and creator.get(f, name) != name:
-                bad.append(("clean_up|foreign-file-deleted|" + cm + ("|name-is-prefix" if f.startswith(name) else "|name-is-not-a-prefix"),
+                bad.append(("clean_up|foreign-file-deleted|" + cm + ("|still-declared-by-reused-object" if f in sn.get("stale", []) else
+                                                                     "|name-is-prefix" if f.startswith(name) else "|name-is-not-a-prefix"),
                             f"op {k}: clean-up of {name!r} (mode {cm}) deleted {f!r}, "
                                                              f"a file of calculation {creator[f]!r}"))
         for f in list(produced):
@@ -594,21 +697,27 @@ def cnat_opt(x):
     return "None" if x is None else f"(Some {x})"
 
 
-CORR_DEFS = ("Definition H (j : nat) (oc : outcome) (cm : cmode) (aux : list str) (st : option str) : hgop := HExt (j, oc, cm, aux, st).\n"
+CORR_DEFS = ("Definition H (j : nat) (oc : outcome) (cm : cmode) (aux : list str) (st : option str) (stale : list str) : hgop := HExt (j, oc, cm, aux, st, stale).\n"
              "Definition O (n : str) (i : bool) (e : option nat) (r : bool) : hobs := (n, i, e, r).\n"
              "Definition L (n : str) (c : nat) : str * nat := (n, c).\n"
              "Definition F (n : str) (b : bool) (c : nat) : str * bool * nat := (n, b, c).\n")
 
 
 def term_seq(nm, ops, res, cut=None, uname="U"):
-    hl = [nm.t("hgop", f"HOpt {j}" if oc == "OPT" else
-               f"H {j} {oc} {cm.partition('@')[0]} {coq_list([nm(a) for a in aux])} {'None' if st is None else '(Some ' + nm(st) + ')'}")
-          for (j, oc, cm), aux, st in zip(ops, res["aux"], res["starts"])]
+    def one(j, oc, cm, aux, st, stale):
+        if oc == "OPT":
+            mark = cm.partition("@")[2]
+            return f"HOptLate {mark[4:]} {j}" if mark.startswith("late") else f"HOpt {j}"
+        return (f"H {j} {oc} {cm.partition('@')[0]} {coq_list([nm(a) for a in aux])} "
+                f"{'None' if st is None else '(Some ' + nm(st) + ')'} {coq_list([nm(a) for a in stale])}")
+    hl = [nm.t("hgop", one(j, oc, cm, aux, st, stale))
+          for (j, oc, cm), aux, st, stale in zip(ops, res["aux"], res["starts"], res["stale"])]
+    late_js = {int(cm.partition("@")[2][4:]) for _, _, cm in ops if cm.partition("@")[2].startswith("late")}
     eobs = coq_list([nm.t("hobs", f"O {nm(n)} {cbool(i)} {cnat_opt(e)} {cbool(r)}") for n, i, e, r in res["obs"]])
     ereg = coq_list([nm.t("(str * nat)%type", f"L {nm(n)} {c}") for n, c in res["regc"]])
     efiles = coq_list([nm(f) for f in res["files"]])
     eouts = coq_list([nm.t("(str * bool * nat)%type", f"F {nm(f)} {cbool(n)} {j if j >= 0 else 999}") for f, n, j in res["outs"]])
-    js = coq_list([str(j) for j in sorted({o[0] for o in ops})])
+    js = coq_list([str(j) for j in sorted({o[0] for o in ops} | late_js)])
     if cut is None:
         return f"chk_seq {uname} {js} {coq_list(hl)} {eobs} {ereg} {efiles} {eouts}"
     return f"chk_seq_restart {uname} {js} {coq_list(hl[:cut])} {coq_list(hl[cut:])} {eobs} {ereg} {efiles} {eouts}"
@@ -665,14 +774,14 @@ def _alarm(signum, frame):
 
 def _job_sequences(args):
     import signal
-    U, seqs, workdir = args
+    U, seqs, workdir, real = args
     out = []
     canon = Canon(U)
     signal.signal(signal.SIGALRM, _alarm)
     for k, ops in enumerate(seqs):
         signal.setitimer(signal.ITIMER_REAL, SEQ_TIMEOUT)
         try:
-            res = run_ops_impl(U, ops, os.path.join(workdir, f"s{k}"))
+            res = run_ops_impl(U, ops, os.path.join(workdir, f"s{k}"), real=real)
         except ImplementationHang:
             # one concrete non-terminating history is enough; the rest of this chunk is skipped
             out.append({"hang": True})
@@ -681,7 +790,7 @@ def _job_sequences(args):
             break
         finally:
             signal.setitimer(signal.ITIMER_REAL, 0)
-        js = sorted({o[0] for o in ops})
+        js = sorted({o[0] for o in ops} | {int(o[2].partition("@")[2][4:]) for o in ops if o[2].partition("@")[2].startswith("late")})
         res["regc"] = [[n, canon(n, i, js)] for n, i in res["reg"]]
         res["oracle"] = oracle_sequence(U, ops, res)
         shutil.rmtree(os.path.join(workdir, f"s{k}"), ignore_errors=True)
@@ -689,10 +798,10 @@ def _job_sequences(args):
     return out
 
 
-def run_sequences(ctx, U, seqs, label, nproc=None):
+def run_sequences(ctx, U, seqs, label, nproc=None, real=False):
     nproc = max(1, min(nproc or 16, os.cpu_count() or 4, len(seqs)))
     idxs = [list(range(i, len(seqs), nproc)) for i in range(nproc)]
-    jobs = [(U, [seqs[k] for k in ix], os.path.join(ctx.work, f"{label}_{i}")) for i, ix in enumerate(idxs)]
+    jobs = [(U, [seqs[k] for k in ix], os.path.join(ctx.work, f"{label}_{i}"), real) for i, ix in enumerate(idxs)]
     with mp.get_context("fork").Pool(nproc) as pool:
         try:
             parts = pool.map_async(_job_sequences, jobs).get(timeout=IMPL_TIMEOUT[0])
@@ -747,7 +856,15 @@ def fixed_clusters(U):
                           o("a|xtb|k1|charge", "ONormal", "CNone@reuse"), o("a|xtb|k1|dist", "ONormal", "CForce@reuse"),
                           o("a|xtb|k1|base", "OAbnormal", "CNone@reuse"), o("a|xtb|k2|base", "ONormal", "CEverything")]),
         ("opt-trajectory", [o("a|surf|o1|obase"), o("a|surf|o1|odist"), o("a|surf|o1|odist3"), o("a|surf|o2|odist"),
-                            o("a|surf|o1|opcs"), o("a|xtb|k1|base", "ONormal", "CEverything")]),
+                            o("a|surf|o1|opcs"),
+                            # built as the 1.0 A request, constraint changed to 1.2 A before run()
+                            (idx["a|surf|o1|odist3"], "OPT", f"CNone@late{idx['a|surf|o1|odist']}")]),
+        ("keywords", [o("a|orca|kl1|base"), o("a|orca|kl2|base"), o("a|orca|kf1|base"), o("a|orca|kf2|base"),
+                      o("a|xtb|kl1|base"), o("a|xtb|kl2|base", "OAbnormal")]),
+        # a re-used object keeps DECLARING the additional files of the calculation it was before
+        ("stale-aux", [o("a|xtb|k1|pcs"), o("a|xtb|k2|pcs", "ONormal", "CForce@reuse"), o("a|xtb|k1|pcs2", "ONormal", "CNone@reuse"),
+                       o("a|xtb|k1|base", "ONormal", "CEverything@reuse"), o("a|xtb|k2|pcs", "OAbnormal", "CNone@reuse"),
+                       o("a|xtb|k1|pcs", "ONormal", "CNone")]),
         ("substring", [o("xa|xtb|k1|base"), o("a|xtb|k1|base"), o("a|xtb|k1|base", "ONormal", "CEverything"),
                        o("xa|xtb|k1|base", "ONormal", "CEverything"), o("a|xtb|k2|base"), o("xa|xtb|k2|base", "OAbnormal")]),
         ("whitespace", [o("a b|xtb|k1|base"), o("a b|xtb|k2|base"), o("a|xtb|k1|base"), o("a b|xtb|k1|charge", "OAbnormal"),
@@ -795,6 +912,14 @@ KNOWN_KEY_OF = {   # general-oracle key -> stable finding key (call site | input
     "same-request|different-name|whitespace-in-history": "_fix_unique|registry-line-with-whitespace-name-ignored",
     "clean_up|foreign-file-deleted|CEverything|name-is-prefix": "clean_up|prefix-match-deletes-other-calculation",
     "same-request|different-name|through-reused-object": "_fix_unique|reused-object-suffixes-its-current-name",
+    "shared-name|differs-only-in:keyword-method-string": "CalculationExecutor.__str__|keyword-method-string-not-hashed",
+    "reused-result|differs-only-in:keyword-method-string": "CalculationExecutor.__str__|keyword-method-string-not-hashed",
+    "shared-name|optimisation-changed-after-construction": "CalculationExecutorO.run|name-fixed-at-construction-not-at-run",
+    "reused-result|optimisation-changed-after-construction": "CalculationExecutorO.run|name-fixed-at-construction-not-at-run",
+    "clean_up|foreign-file-deleted|CForce|still-declared-by-reused-object": "clean_up|reused-object-deletes-files-it-still-declares",
+    "clean_up|foreign-file-deleted|CAuto|still-declared-by-reused-object": "clean_up|reused-object-deletes-files-it-still-declares",
+    "clean_up|foreign-file-deleted|CEverything|still-declared-by-reused-object": "clean_up|reused-object-deletes-files-it-still-declares",
+    "same-request|different-name|constraint-insertion-order": "Constraints.__str__|constraint-insertion-order-dependent",
 }
 MAX_REPORTS = 10
 
@@ -830,9 +955,20 @@ def targeted_oracles(ctx, seen, only=None):
           spec("xa", "xtb", "k1", "base"),                                           # 13
           spec("a", "xtb", "k1", "charge"),                                          # 14
           spec("a", "xtb", "k1", "d15"), spec("a", "xtb", "k1", "d1504")]            # 15 16
-    for va, vb in ((2.123, 2.124), (10.21, 10.23)):                                  # 17 18, 19 20
+    for va, vb in ((2.123, 2.124), (10.21, 10.23), (1.0, 1.000004)):                 # 17 18, 19 20, 21 22
         for v in (va, vb):
             TU.append(dict(spec("a", "xtb", "k1", "dist"), dist=(((0, 1), v),), tag=f"a|xtb|k1|dist={v}"))
+    big = [(0.1 * (i % 7) - 0.3, 3.0 + 0.5 * (i % 11), -2.0 + 0.37 * (i % 13), 4.0 + 0.01 * i) for i in range(260)]
+    big2 = list(big)
+    big2[130] = (big[130][0] + 0.5,) + big[130][1:]
+    TU += [spec("a", "xtb", "k2", "pcs"),                                                     # 23
+           spec("a", "orca", "kf1", "base"), spec("a", "orca", "kf2", "base"),                # 24 25
+           spec("a", "orca", "kl1", "base"), spec("a", "orca", "kl2", "base"),                # 26 27
+           dict(spec("a", "xtb", "k1", "base"), pcs=tuple(big), tag="a|xtb|k1|260 point charges"),       # 28
+           dict(spec("a", "xtb", "k1", "base"), pcs=tuple(big2), tag="a|xtb|k1|260 point charges, #130 changed"),  # 29
+           spec("a", "xtb", "k1", "pcs2"),                                                    # 30
+           dict(spec("a", "xtb", "k1", "dist"), dist=(((0, 1), 1.0), ((1, 2), 1.1)), tag="a|xtb|k1|dist{01,12}"),  # 31
+           dict(spec("a", "xtb", "k1", "dist"), dist=(((1, 2), 1.1), ((0, 1), 1.0)), tag="a|xtb|k1|dist{12,01}")]  # 32
     N = ("ONormal", "CNone")
     hist = {
         "point-charges": [(0, *N), (1, *N)], "distance-rounding": [(2, *N), (3, *N)], "atoms>100": [(4, *N), (5, *N)],
@@ -846,6 +982,15 @@ def targeted_oracles(ctx, seen, only=None):
         "reused-object-renamed": [(0, *N), (10, "ONormal", "CNone@reuse"), (0, "ONormal", "CNone@reuse")],
         # constraints that differ by >= 0.001 A but only beyond the third significant figure
         "distance-3-figures": [(15, *N), (16, *N), (17, *N), (18, *N), (19, *N), (20, *N)],
+        "distance-below-1e-5": [(21, *N), (22, *N)],
+        # an optimisation object built as the 1.0 A request and changed to 1.2 A before run()
+        "opt-changed-after-construction": [(11, "OPT", "CNone"), (12, "OPT", "CNone@late11")],
+        # a re-used xtb object with point charges still declares the previous calculation's aux files
+        "stale-declared-files": [(1, *N), (23, "ONormal", "CForce@reuse")],
+        "keyword-method-string": [(24, *N), (25, *N)],
+        "long-keywords": [(26, *N), (27, *N)],
+        "point-charge-sets": [(1, *N), (30, *N), (28, *N), (29, *N)],
+        "constraint-insertion-order": [(31, *N), (32, *N)],
         # `xa_xtb.*` contains the full name `a_xtb` away from its start: cleaning `a` must keep it
         "substring-cleanup": [(13, *N), (0, *N), (0, "ONormal", "CEverything"), (13, *N)],
     }
@@ -942,7 +1087,7 @@ def correspondence_sequences(ctx, U, full, seen, nm):
 
 def restart_stream(ctx, U, full, seen, nm):
     """The same sequences executed (i) in this process and (ii) split over two fresh interpreters."""
-    n = 6 if not full else 48
+    n = 8 if not full else 48
     seqs = []
     cl = dict(fixed_clusters(U))
     pool = cl["identity-fields"] + cl["names-prefix"] + cl["orca-solvation"] + cl["opt-trajectory"][:4]
@@ -986,7 +1131,7 @@ def restart_stream(ctx, U, full, seen, nm):
         if ref.get("hang") or ref.get("skipped"):
             continue
         merged = dict(obs=parts[0]["obs"] + parts[1]["obs"], aux=parts[0]["aux"] + parts[1]["aux"],
-                      starts=parts[0]["starts"] + parts[1]["starts"],
+                      starts=parts[0]["starts"] + parts[1]["starts"], stale=parts[0]["stale"] + parts[1]["stale"],
                       files=parts[1]["files"], outs=parts[1]["outs"], reg=parts[1]["reg"], regc=parts[1]["regc"])
         same = all(merged[x] == ref[x] for x in ("obs", "files", "outs", "regc"))
         if not same:
@@ -1001,6 +1146,26 @@ def restart_stream(ctx, U, full, seen, nm):
         terms.append(term_seq(nm, ops, merged, cut=cut))
         descr.append({"kind": "restart", "ops": [[U[j]["tag"], oc, cm] for j, oc, cm in ops], "cut": cut})
     return terms, descr
+
+
+def real_wrapper_stream(ctx, U, full, seen):
+    """The wrappers' OWN execute() — work_in_tmp_dir, run_external, copy-back of kept files — driven
+    by a scripted executable: retries after abnormal outputs, two methods, clean-up.  Oracle only
+    (the scripted executable leaves no scratch file, so the Coq model of the stand-in does not apply)."""
+    idx = {sp["tag"]: j for j, sp in enumerate(U)}
+    cl = [(idx["a|xtb|k1|base"], "ONormal", "CNone"), (idx["a|xtb|k1|base"], "OAbnormal", "CNone"),
+          (idx["a|xtb|k2|base"], "ONormal", "CNone"), (idx["a|orca|k1|base"], "OAbnormal", "CNone"),
+          (idx["a|orca|k1|base"], "ONormal", "CNone"), (idx["a|xtb|k1|pcs"], "ONormal", "CEverything")]
+    seqs = all_sequences(cl, 3 if not full else 4)
+    results = run_sequences(ctx, U, seqs, "real", real=True)
+    for ops, res in zip(seqs, results):
+        if res.get("skipped") or res.get("hang"):
+            continue
+        ctx.count("real-wrapper", tuple(ops), nontrivial=nontrivial(U, ops),
+                  sample={"ops": [[U[j]["tag"], oc, cm] for j, oc, cm in ops], "names": [o[0] for o in res["obs"]],
+                          "invoked": [o[1] for o in res["obs"]]})
+        if res["oracle"]:
+            report_oracle(ctx, U, ops, res["oracle"], "real-wrapper", seen)
 
 
 def concurrent_stream(ctx, full, seen):
@@ -1176,10 +1341,18 @@ def run(ctx):
     corr_bad, corr_err = [], None
     nm = Interner()
     ctx.log("start " + _cpu())
-    pre, terms, descr, _ = correspondence_sequences(ctx, U, full, seen, nm)
-    ctx.log("sequences done " + _cpu())
-    rterms, rdescr = restart_stream(ctx, U, full, seen, nm)
-    ctx.log("restart done " + _cpu())
+    try:
+        pre, terms, descr, _ = correspondence_sequences(ctx, U, full, seen, nm)
+        ctx.log("sequences done " + _cpu())
+        real_wrapper_stream(ctx, U, full, seen)
+        ctx.log("real-wrapper stream done " + _cpu())
+        rterms, rdescr = restart_stream(ctx, U, full, seen, nm)
+        ctx.log("restart done " + _cpu())
+    except ImplementationHang as e:
+        ctx.violation(str(e), {"kind": "hang", "stream": "sequences"}, found_input=False)
+        if not proofs_ok:
+            ctx.proof_failure(info, found_any_input=False)
+        return
     pre += nm.defs()
     cpre, cterms, cdescr = concurrent_stream(ctx, full, seen)
     ctx.log("concurrent done " + _cpu())
@@ -1224,6 +1397,7 @@ def run(ctx):
                            "coq_terms": [t[:3000] for _, t in corr_bad[:2]], "coq_error": corr_err}, found_input=False)
         else:
             ctx.log("correspondence disagreements accompany the implementation-level findings above")
+            ctx.cov["first_disagreements"] = [d for d, _ in corr_bad[:6]]
 
 
 def replay(ctx, obj):
@@ -1240,7 +1414,7 @@ def replay(ctx, obj):
     U = universe(rep.get("universe_full", False))
     idx = {sp["tag"]: j for j, sp in enumerate(U)}
     ops = [(idx[t], oc, cm) for t, oc, cm in rep["ops"]]
-    res = _job_sequences((U, [ops], os.path.join(ctx.work, "replay")))[0]
+    res = _job_sequences((U, [ops], os.path.join(ctx.work, "replay"), rep.get("stream", "").startswith("real-wrapper")))[0]
     if res.get("hang"):
         print("replay:", rep["ops"], "-> did not terminate within", SEQ_TIMEOUT, "s")
         return 1
